@@ -335,10 +335,10 @@ def strata(tier):
     return [
         Stratum("enum-general-form", "enum", enum_gf),
         Stratum("enum-directions", "enum", enum_dirs),
-        Stratum("named-constructors", "enum", enum_named),
         Stratum("point-normal", "hyp", gen_pn(), n),
         Stratum("general-form", "hyp", gen_gf(), n),
         Stratum("three-points/two-vectors", "hyp", gen_3p(), n),
         Stratum("three-points/far-apart", "hyp", gen_3p_far(), n),
         Stratum("line", "hyp", gen_line(), n),
+        Stratum("named-constructors", "enum", enum_named),
     ]
